@@ -2,7 +2,9 @@
 """Copy confirmed mutants from /tmp/mut-out into /verif/seeded/<ID>-<k>/ with meta.json."""
 import json, os, re, shutil, sys
 VERIF = os.path.dirname(os.path.dirname(os.path.abspath(__file__)))
-log = open('/tmp/mut-out/CONFIRM.log').read().splitlines()
+OUT = sys.argv[1] if len(sys.argv) > 1 else '/tmp/mut-out'       # e.g. /tmp/mut2-out
+SUF = sys.argv[2] if len(sys.argv) > 2 else ''                    # e.g. r2  -> seeded/C02-r2-1
+log = open(OUT + '/CONFIRM.log').read().splitlines()
 conf = {}
 for l in log:
     m = re.match(r'(C\d+)-(\d+) CONFIRMED=(\w+) \| (.*)', l)
@@ -13,10 +15,10 @@ dp = os.path.join(VERIF, 'seeded', 'DETECTION.json')
 if os.path.exists(dp):
     det = json.load(open(dp))
 for (pid, k), (ok, line) in sorted(conf.items()):
-    src = '/tmp/mut-out/%s/%s' % (pid, k)
+    src = '%s/%s/%s' % (OUT, pid, k)
     if ok != 'YES' or not os.path.exists(src + '/patch.diff'):
         continue
-    dst = os.path.join(VERIF, 'seeded', '%s-%s' % (pid, k))
+    dst = os.path.join(VERIF, 'seeded', '%s-%s%s' % (pid, SUF + '-' if SUF else '', k))
     os.makedirs(dst, exist_ok=True)
     for f in ('patch.diff', 'demo.diff', 'README.md'):
         if os.path.exists(os.path.join(src, f)):
